@@ -37,6 +37,13 @@ import (
 
 const opTimeout = 20 * time.Second
 
+// claimError: the text of RefSchema.claim's error (lib/j5schema/root_schema.go).
+const claimError = "is used by both"
+
+// curCollide: the set of the op being executed has two descriptors with one schema name (ops run
+// one at a time).
+var curCollide bool
+
 func init() {
 	// infinite recursion must die quickly (the engine attributes the crash to the op: "flush")
 	debug.SetMaxStack(256 << 20)
@@ -200,6 +207,7 @@ func reflectOnce(h *vh.H, op string, fds *descriptorpb.FileDescriptorSet) string
 	}
 	include := func(fd protoreflect.FileDescriptor) bool { return own[fd.Path()] }
 	idx, collide := buildIndex(gen)
+	curCollide = collide
 	if collide {
 		// two descriptors map to one J5 schema name (Foo_Bar vs Foo.Bar): an error since af1da62
 		h.Count("reflect.name-collision")
@@ -586,6 +594,14 @@ func codecRun(h *vh.H, op, name, class, what string, f func() error) bool {
 		return false
 	}
 	if err != nil {
+		if curCollide && strings.Contains(err.Error(), claimError) {
+			// two descriptors of the set map to one schema name (an error since af1da62). Which
+			// message fails depends on which descriptor a cache saw first; the codec reflects on
+			// its own cache, whose history differs from the one `class` was taken from, so here
+			// reflection did not succeed and the property says nothing about the codec.
+			h.Count("reflect.codec.name-collision-in-codec-cache")
+			return false
+		}
 		if class == "ok" {
 			fail(h, "codec-error:"+what, op, name+": "+err.Error())
 		}
